@@ -185,3 +185,45 @@ Theorem C09_raise_with_cause_takes_active : forall c wf st,
               rwc_dunder_cause st' (next st) = hd_error (hstack st).
 Proof. exact rwc_cause_lemma. Qed.
 Print Assumptions C09_raise_with_cause_takes_active.
+
+(* ---- the context object used again after its with block ---- *)
+
+(* with ctx: body  ends normally with reraise off (nothing raised); a later ctx.force_reraise() on the same
+   object raises the exception saved on entry: same object, traceback = the one captured on entry plus the
+   two frames of the call.  Every body with direct_free0, no depth bound. *)
+Theorem C09_sare_post_block_force_reraise : forall r0 lab wf wf' b st o rest s3 st3,
+  hstack st = o :: rest -> o < next st -> direct_free0 b = true ->
+  with_sare r0 lab wf (fun s st => exec b s st) st = (s3, st3, Normal, Normal) ->
+  exists s' st', do_force wf' s3 st3 = (s', st', Raised o) /\ same_object st st' o /\
+                 exists k, (k = KVal \/ k = KWtb) /\ tb_of st' o = wf' :: FHelper FnForce k :: tb_of st o.
+Proof. exact sare_post_block_force_lemma. Qed.
+Print Assumptions C09_sare_post_block_force_reraise.
+
+(* the block raised x (which left the with statement and was handled by the caller): a later
+   ctx.force_reraise() still raises the exception saved on entry *)
+Theorem C09_sare_post_raise_force_reraise : forall r0 lab wf wf' b st o rest s3 st3 x out',
+  hstack st = o :: rest -> o < next st -> direct_free0 b = true ->
+  with_sare r0 lab wf (fun s st => exec b s st) st = (s3, st3, Raised x, out') ->
+  exists s' st', do_force wf' s3 (pop (push x st3)) = (s', st', Raised o) /\ same_object st st' o /\
+                 exists k, (k = KVal \/ k = KWtb) /\ tb_of st' o = wf' :: FHelper FnForce k :: tb_of st o.
+Proof. exact sare_post_raise_force_lemma. Qed.
+Print Assumptions C09_sare_post_raise_force_reraise.
+
+(* ctx.capture(); ctx.force_reraise() re-using the object after a with block with ANY body and outcome
+   (K13 misuse included): the exception being handled is raised, same object, and whatever traceback T it had
+   on entry is still the end of its traceback *)
+Theorem C09_sare_post_capture_force_reraise : forall r0 lab wf wfc wf' b st o rest s3 st3 ob out' T,
+  hstack st = o :: rest -> o < next st -> tb_suffix T (tb_of st o) ->
+  with_sare r0 lab wf (fun s st => exec b s st) st = (s3, st3, ob, out') ->
+  exists s1 s' st', do_capture_stmt wfc s3 st3 = (s1, st3, Normal) /\
+                    do_force wf' s1 st3 = (s', st', Raised o) /\ same_object st st' o /\
+                    tb_suffix T (tb_of st' o).
+Proof. exact sare_post_capture_force_lemma. Qed.
+Print Assumptions C09_sare_post_capture_force_reraise.
+
+(* No body, however deep and K13 misuse included, makes an existing exception lose the traceback it had: T stays
+   a suffix of its traceback and of the traceback any context saved for it. *)
+Theorem C09_bodies_never_lose_traceback : forall b o T s st s' st' out,
+  o < next st -> keeps o T s st -> exec b s st = (s', st', out) -> keeps o T s' st'.
+Proof. exact exec_keeps_traceback. Qed.
+Print Assumptions C09_bodies_never_lose_traceback.
